@@ -28,12 +28,31 @@ TABLES_SZ = 0x4000
 
 
 def plan(tier, seed):
+    # sweepT32: every value of hw1[15:4] of the 32-bit Thumb space (0xE80..0xFFF, 384 values) x seeded hw2 with register fields biased to 13/15;
+    # sweepA32: every value of ARM bits [27:20] x [7:4] x cond in {AL, NV} with seeded register/immediate fields
     if tier == 'quick':
-        return [{'k': 'stream'}] * 14000 + [{'k': 'sweep16', 'slice': i, 'of': 1024, 'ctx': i % 3} for i in range(1024)]
+        return ([{'k': 'stream'}] * 12000 + [{'k': 'sweep16', 'slice': i, 'of': 1024, 'ctx': i % 3} for i in range(1024)] +
+                [{'k': 'sweepT32', 'slice': i, 'rep': 256} for i in range(0, 384, 8)] + [{'k': 'sweepA32', 'slice': i, 'rep': 12} for i in range(0, 8192, 64)])
     items = [{'k': 'stream'}] * 400000
     for ctx in range(3):
         items += [{'k': 'sweep16', 'slice': i, 'of': 256, 'ctx': ctx} for i in range(256)]
+    for rnd in range(6):
+        items += [{'k': 'sweepT32', 'slice': i, 'rep': 512} for i in range(0, 384, 8)]
+        items += [{'k': 'sweepA32', 'slice': i, 'rep': 64} for i in range(0, 8192, 64)]
     return items
+
+
+def _biased_fields(rng, w, positions):
+    """overwrite 4-bit register fields at the given bit positions with values biased to SP/LR/PC and equal registers"""
+    last = None
+    for pos in positions:
+        k = rng.random()
+        if k < 0.5:
+            continue
+        v = rng.choice([13, 14, 15, 15, 0, last if last is not None else 1])
+        last = v
+        w = (w & ~(0xF << pos)) | v << pos
+    return w
 
 
 def _vmsa_tables(rng, dev, mode):
@@ -116,7 +135,27 @@ def gen_case(item, rng, tier):
     reg0 = regime(rng, cfg, True)
     reg0['pc'] = CODE + 4 * rng.randrange(0, 64)
     core = {'config': cfg, 'devices': devices, 'regs': reg0, 'no_poke': [TABLES]}
-    if item['k'] == 'sweep16':
+    if item['k'] in ('sweepT32', 'sweepA32'):
+        # keep memory reachable: MPU/MMU off, registers aimed at the data page
+        reg0['sys']['sctlr'] = G.sctlr_value(m=0, a=rng.getrandbits(1), u=rng.getrandbits(1), te=rng.getrandbits(1), v=0)
+        words = []
+        if item['k'] == 'sweepT32':
+            for hi in range(item['slice'], item['slice'] + 8):
+                hw1_base = (0xE80 + hi) << 4
+                for _ in range(item['rep']):
+                    w = (hw1_base | rng.getrandbits(4)) << 16 | rng.getrandbits(16)
+                    words.append(_biased_fields(rng, w, (16, 12, 8, 0)))
+            force = {'it': rng.choice([0, 0, 0x08 | rng.randrange(14) << 4, None]), 'ctx': 9, 'thumb': 1}
+        else:
+            for cell in range(item['slice'], item['slice'] + 64):
+                base = (cell >> 5) << 20 | ((cell >> 1) & 0xF) << 4 | (0xF if cell & 1 else 0xE) << 28
+                for _ in range(item['rep']):
+                    w = base | (rng.getrandbits(32) & 0x000FFF0F)
+                    words.append(_biased_fields(rng, w, (16, 12, 8, 0)))
+            force = {'it': 0, 'ctx': 9, 'thumb': 0}
+        rng.shuffle(words)
+        nt = len(words)
+    elif item['k'] == 'sweep16':
         n = 65536 // item['of']
         lo = item['slice'] * n
         words = [(h << 16) | rng.choice([0xBF00, rng.getrandbits(16), 0xF000, 0x8000]) for h in range(lo, lo + n)]
@@ -133,7 +172,7 @@ def gen_case(item, rng, tier):
     for _ in range(nev):
         k = rng.random()
         t = rng.randrange(1, nt)
-        if item['k'] == 'sweep16' and k >= 0.45:
+        if item['k'] != 'stream' and k >= 0.45:
             k = rng.random() * 0.45
         if k < 0.2:
             events.append({'tick': t, 'core': 0, 'kind': 'irq'})
